@@ -151,6 +151,13 @@ def _lambda_as_def(lam: ast.Lambda):
     return fn
 
 
+class Unk:
+    """An integer the cell says nothing about."""
+
+    def __repr__(self):
+        return "Unk"
+
+
 class Ret(Exception):
     def __init__(self, v):
         self.v = v
@@ -170,6 +177,8 @@ class TableEval:
         self.default_mode = default_mode
         self.qclass = qclass
         self.modulus = modulus
+        self.forced: List[int] = []     # outcomes prescribed for comparisons the cell does not decide
+        self.taken: List[int] = []
         self.cmp2 = cmp2
         self.rem_zero = rem_zero
         self.env: Dict[str, object] = {}
@@ -522,6 +531,10 @@ class TableEval:
         if isinstance(op, ast.Mult) and ((isinstance(l, AQ) and l.c == 0 and isinstance(r, Lin) and (r.kr, r.ky) == (0, 1)) or
                                          (isinstance(r, AQ) and r.c == 0 and isinstance(l, Lin) and (l.kr, l.ky) == (0, 1))):
             return ("quot*y",)
+        # quot // m: how many times m goes into the quotient is nothing the modes are defined by, and nothing a cell
+        # determines; comparisons of it are followed both ways (a result that then differs makes the cell ambiguous)
+        if isinstance(op, ast.FloorDiv) and isinstance(l, AQ) and isinstance(r, Fraction) and r.denominator == 1 and r > 1:
+            return Unk()
         # (quot + c) compared / combined with small integers is handled in cmp(); bit test of the parity
         if isinstance(op, ast.BitAnd) and isinstance(l, AQ) and r == Fraction(1):
             return Fraction((l.s * self.qclass[1] + l.c) % 2)
@@ -556,7 +569,16 @@ class TableEval:
             return 1
         if a <= 0 and b <= 0 and (a < 0 or b < 0):
             return -1
-        self.bad(node, "comparison of rem and y not decided by cmp(2*rem, y)")
+        # not decided by the cell: the helper looks at something the definitions of the modes do not depend on.
+        # Both outcomes are followed (decision_table runs the cell once per combination); if they end differently
+        # the helper is not a function of the cell and cannot equal the reference on all of it.
+        return self.undecided()
+
+    def undecided(self) -> int:
+        k = len(self.taken)
+        choice = self.forced[k] if k < len(self.forced) else 0
+        self.taken.append(choice)
+        return (-1, 1)[choice]
 
     def cmp(self, op, l, r, node) -> bool:
         opn = type(op).__name__
@@ -576,7 +598,11 @@ class TableEval:
                 return not self.same_mode(l, r)
             self.bad(node, "mode comparison")
         d = None
-        if isinstance(l, Fraction) and isinstance(r, Fraction):
+        if isinstance(l, Unk) or isinstance(r, Unk):
+            if not isinstance(l if isinstance(r, Unk) else r, (Fraction, Unk)):
+                self.bad(node, "comparison operands")
+            s = self.undecided()
+        elif isinstance(l, Fraction) and isinstance(r, Fraction):
             d = l - r
             s = (d > 0) - (d < 0)
         elif isinstance(l, (Lin, Fraction)) and isinstance(r, (Lin, Fraction)) and \
@@ -649,6 +675,18 @@ def decision_table(fi: FuncInfo, modes: List[str], prog=None):
         for how in ("explicit", "default"):
             for qc in quotient_classes(L):
                 for cmp2 in (-1, 0, 1):
-                    ev = TableEval(fi, mode if how == "explicit" else None,
-                                   mode if how == "default" else "ROUND_HALF_EVEN", qc, cmp2, prog=prog, modulus=L)
-                    yield mode, how, qc, cmp2, ev.run()
+                    outs, todo = [], [[]]
+                    while todo and len(outs) < 16:
+                        forced = todo.pop()
+                        ev = TableEval(fi, mode if how == "explicit" else None,
+                                       mode if how == "default" else "ROUND_HALF_EVEN", qc, cmp2, prog=prog, modulus=L)
+                        ev.forced = forced
+                        outs.append(ev.run())
+                        if len(ev.taken) > len(forced):
+                            # a comparison beyond the prescribed ones was undecided: follow its other outcome as well
+                            todo.append(list(ev.taken[:len(forced)]) + [1])
+                    first = outs[0]
+                    if any(repr(o_) != repr(first) for o_ in outs[1:]):
+                        yield mode, how, qc, cmp2, ("ambiguous", [repr(o_) for o_ in outs])
+                    else:
+                        yield mode, how, qc, cmp2, first
